@@ -14,6 +14,10 @@ type Fh struct {
 }
 
 func MakeFh(fh3 nfstypes.Nfs_fh3) Fh {
+	if len(fh3.Data) != 16 {
+		// not a handle we issued; inode 0 is never live, so this is stale
+		return Fh{Ino: common.NULLINUM, Gen: 0}
+	}
 	dec := marshal.NewDec(fh3.Data)
 	i := dec.GetInt()
 	g := dec.GetInt()
